@@ -12,7 +12,7 @@ tvars == <<tid, l, out, err, eof, bad>>
 T == Batch[tid]
 N == Len(T.events)
 TInit == tid \in 1..Len(Batch) /\ l = 1 /\ bad = {}
-         /\ out = Batch[tid].init[1] /\ err = Batch[tid].init[2] /\ eof = FALSE
+         /\ out = Batch[tid].init[1] /\ err = Batch[tid].init[2] /\ eof = (Batch[tid].init[3] = 1)   \* EOF before fileno()
 ShouldBeReadable == out > 0 \/ err > 0 \/ eof
 Step ==
   /\ l <= N /\ l' = l + 1 /\ tid' = tid /\ bad' = {}
